@@ -7,20 +7,18 @@ import LW.Model.Circuit
 import LW.Model.Rewrite
 import LW.Model.CircuitSpec
 import LW.Model.Optic
+import LW.Model.Heap
 
 open Lean
 
 namespace LW.Driver
 
-abbrev Pool := List (String × Circ GQ)
+abbrev Pool := Heap GQ
 
 def Pool.get (p : Pool) (k : String) : R (Circ GQ) :=
-  match p.find? (·.1 == k) with
-  | some x => .ok x.2
+  match Heap.get? p k with
+  | some x => .ok x
   | none => .error s!"unknown circuit {k}"
-
-def Pool.set (p : Pool) (k : String) (c : Circ GQ) : Pool :=
-  if p.any (·.1 == k) then p.map fun x => if x.1 == k then (k, c) else x else p ++ [(k, c)]
 
 def asConv (j : Json) : R Conv := do
   match (← asStr j) with
@@ -43,8 +41,8 @@ def observe (c : Circ GQ) : Json :=
     ("U_full", matJ U),
     ("U_spec", matJ (c.Uspec GQ.I))]
 
-/-- apply one op; returns the new pool and the outcome (`ok` or an error class name) -/
-def circStep (pool : Pool) (op : Json) : R (Pool × String) := do
+/-- parse one op of the protocol into the model's `CircOp` -/
+def parseCircOp (op : Json) : R (CircOp GQ) := do
   let a ← asList op
   let name ← match a with
     | h :: _ => asStr h
@@ -52,73 +50,67 @@ def circStep (pool : Pool) (op : Json) : R (Pool × String) := do
   let arg (k : Nat) : R Json := match a[k]? with
     | some v => .ok v
     | none => .error s!"op {name}: missing arg {k}"
-  let upd (id : String) (r : Except Err (Circ GQ)) : R (Pool × String) :=
-    match r with
-    | .ok c => .ok (pool.set id c, "ok")
-    | .error e => .ok (pool, e.toString)
   match name with
   | "new" => do
       let id ← asStr (← arg 1); let n ← asNat (← arg 2)
-      return (pool.set id (Circ.new n), "ok")
+      return .new id n
   | "unitary" => do
       let id ← asStr (← arg 1); let u ← asMat (← arg 2)
-      return (pool.set id { n := u.n, spec := [.prim (.unitary 0 u)] }, "ok")
+      return .unitary id u
   | "bs" => do
-      let id ← asStr (← arg 1); let c ← pool.get id
-      let m1 ← asInt (← arg 2); let m2 ← asInt (← arg 3)
+      let id ← asStr (← arg 1); let m1 ← asInt (← arg 2); let m2 ← asInt (← arg 3)
       let cc ← asGQ (← arg 4); let ss ← asGQ (← arg 5); let cv ← asConv (← arg 6)
-      let l ← asOpt asGQPair (← arg 7)
-      let rv ← asBool (← arg 8); let lv ← asBool (← arg 9)
-      upd id (c.bs m1 m2 (cc, ss) cv l rv lv)
+      let l ← asOpt asGQPair (← arg 7); let rv ← asBool (← arg 8); let lv ← asBool (← arg 9)
+      return .bs id m1 m2 (cc, ss) cv l rv lv
   | "ps" => do
-      let id ← asStr (← arg 1); let c ← pool.get id
-      let m ← asInt (← arg 2); let p ← asGQ (← arg 3)
+      let id ← asStr (← arg 1); let m ← asInt (← arg 2); let p ← asGQ (← arg 3)
       let l ← asOpt asGQPair (← arg 4); let lv ← asBool (← arg 5)
-      upd id (c.ps m p l lv)
+      return .ps id m p l lv
   | "loss" => do
-      let id ← asStr (← arg 1); let c ← pool.get id
-      let m ← asInt (← arg 2); let x ← asGQ (← arg 3); let y ← asGQ (← arg 4)
-      let lv ← asBool (← arg 5)
-      upd id (c.loss m (x, y) lv)
+      let id ← asStr (← arg 1); let m ← asInt (← arg 2)
+      let x ← asGQ (← arg 3); let y ← asGQ (← arg 4); let lv ← asBool (← arg 5)
+      return .loss id m (x, y) lv
   | "barrier" => do
-      let id ← asStr (← arg 1); let c ← pool.get id
-      let ms ← asOpt (asListOf asInt) (← arg 2)
-      upd id (c.barrier ms)
+      let id ← asStr (← arg 1); let ms ← asOpt (asListOf asInt) (← arg 2)
+      return .barrier id ms
   | "swaps" => do
-      let id ← asStr (← arg 1); let c ← pool.get id
-      let sw ← asListOf (asPair asInt asInt) (← arg 2)
-      upd id (c.modeSwaps sw)
+      let id ← asStr (← arg 1); let sw ← asListOf (asPair asInt asInt) (← arg 2)
+      return .swaps id sw
   | "herald" => do
-      let id ← asStr (← arg 1); let c ← pool.get id
-      let n ← asNat (← arg 2); let i ← asInt (← arg 3); let o ← asInt (← arg 4)
-      upd id (c.herald n i o)
+      let id ← asStr (← arg 1); let n ← asNat (← arg 2); let i ← asInt (← arg 3); let o ← asInt (← arg 4)
+      return .herald id n i o
   | "add" => do
-      let id ← asStr (← arg 1); let c ← pool.get id
-      let sub ← pool.get (← asStr (← arg 2))
-      let m ← asInt (← arg 3); let g ← asBool (← arg 4)
-      upd id (c.add sub m g)
+      let id ← asStr (← arg 1); let sub ← asStr (← arg 2); let m ← asInt (← arg 3); let g ← asBool (← arg 4)
+      return .add id sub m g
   | "plus" => do
-      let id ← asStr (← arg 1)
-      let x ← pool.get (← asStr (← arg 2)); let y ← pool.get (← asStr (← arg 3))
-      upd id (x.plus y)
+      let id ← asStr (← arg 1); let x ← asStr (← arg 2); let y ← asStr (← arg 3)
+      return .plus id x y
   | "copy" => do
-      let id ← asStr (← arg 1); let x ← pool.get (← asStr (← arg 2))
-      return (pool.set id x.copy, "ok")
+      let id ← asStr (← arg 1); let x ← asStr (← arg 2)
+      return .copy id x
   | "unpack" => do
-      let id ← asStr (← arg 1); let c ← pool.get id
-      return (pool.set id c.unpackGroups, "ok")
+      let id ← asStr (← arg 1)
+      return .unpack id
   | "compress" => do
-      let id ← asStr (← arg 1); let c ← pool.get id
-      return (pool.set id c.compress, "ok")
+      let id ← asStr (← arg 1)
+      return .compress id
   | "nonadj" => do
-      let id ← asStr (← arg 1); let c ← pool.get id
-      return (pool.set id c.removeNonAdj, "ok")
+      let id ← asStr (← arg 1)
+      return .nonadj id
   | s => .error s!"unknown circuit op {s}"
+
+/-- apply one op through the model's `heapStep` -/
+def circStep (pool : Pool) (op : Json) : R (Pool × String) := do
+  let cop ← parseCircOp op
+  match heapStep pool cop with
+  | none => .error s!"op refers to an unknown circuit: {op.compress}"
+  | some (p', none) => return (p', "ok")
+  | some (p', some e) => return (p', e.toString)
 
 def observeAll (pool : Pool) (ids : List String) : R Json := do
   let obs ← ids.mapM fun id => do
-    match pool.find? (·.1 == id) with
-    | some x => pure (id, observe x.2)
+    match Heap.get? pool id with
+    | some x => pure (id, observe x)
     | none => pure (id, Json.null)
   return Json.mkObj obs
 
